@@ -147,6 +147,73 @@ func ruleErrPolarity(c *Ctx, r *Rep) {
 		}
 	}
 	okPolarity(c, r, consumers, isLog)
+	forwardedPair(c, r)
+}
+
+// forwardedPair: a helper that is handed both results of a call, h(g()), with g answering (*T, error): inside h the
+// pointer is dereferenced only where the error is known to be nil (or the pointer known not to be).
+func forwardedPair(c *Ctx, r *Rep) {
+	for _, h := range c.Funcs {
+		var ep, pp *ssa.Parameter
+		for _, prm := range h.Params {
+			if isErrorType(prm.Type()) {
+				ep = prm
+			} else if _, isPtr := prm.Type().Underlying().(*types.Pointer); isPtr && pp == nil {
+				pp = prm
+			}
+		}
+		if ep == nil || pp == nil || h.Blocks == nil {
+			continue
+		}
+		// is it called with the two results of one call?
+		pair := false
+		for _, caller := range c.Funcs {
+			for _, site := range callsIn(caller) {
+				if site.Common().StaticCallee() != h {
+					continue
+				}
+				var tuples []ssa.Value
+				for _, a := range site.Common().Args {
+					if ex, ok := a.(*ssa.Extract); ok {
+						tuples = append(tuples, ex.Tuple)
+					}
+				}
+				for i := range tuples {
+					for j := i + 1; j < len(tuples); j++ {
+						if tuples[i] == tuples[j] {
+							pair = true
+						}
+					}
+				}
+			}
+		}
+		if !pair {
+			continue
+		}
+		n := 0
+		for _, ref := range *pp.Referrers() {
+			deref := false
+			switch u := ref.(type) {
+			case *ssa.FieldAddr:
+				deref = u.X == ssa.Value(pp)
+			case *ssa.UnOp:
+				deref = u.Op == token.MUL && u.X == ssa.Value(pp)
+			}
+			if !deref {
+				continue
+			}
+			n++
+			safe := false
+			for _, g := range guardsOf(ref.Block()) {
+				if x, isNil, ok := nilTestOf(g.Cond, g.Truth); ok {
+					if (x == ssa.Value(ep) && isNil) || (x == ssa.Value(pp) && !isNil) {
+						safe = true
+					}
+				}
+			}
+			r.Check(safe, sprintf("forwarded-pair|%s#%d", c.FuncKey(h), n), c.Pos(ref.Pos()), "the value that came with an error is dereferenced only where the error is known to be nil", sprintf("%v", safe))
+		}
+	}
 }
 
 // okPolarity: the same for comma-ok forms (map lookups, type assertions): where ok is known to be false the value
